@@ -129,7 +129,8 @@ def run(ctx):
                rec, 'the error is only returned to the caller; kill_logs will read on from the middle of the record')
     ctx.ob('9s0 enact-callers', 'anchor', 'db::DbInner::enact_logs', 'the callers of DbInner::enact_logs were found (commit worker; stepping wrapper in the instrumentation build)', n9 >= 1, str(callers))
     shared.torn_record_not_handed_over(ctx, '2')        # a failed append never reaches the non-validating applier
-    shared.failed_cleanup_keeps_queue_order(ctx, '2')   # a failed truncation does not let newer logs be truncated first
+    shared.failed_cleanup_keeps_queue_order(ctx, '2')
+    shared.no_log_handle_destroyed_in_cleanup(ctx, '2')   # a failed truncation does not let newer logs be truncated first
     # ------------------------------------------------------------ 3. informational: I/O calls outside try_io!
     out = []
     for b in F.bodies.values():
